@@ -29,14 +29,14 @@ def replay_sat(vals, oid):
 @harness(PROPERTY, "saturation", functions=["ibldsp.voltage:saturation"], replay=replay_sat,
          clause="flag iff more than the proportion of channels exceed 98% of range or the slew limit into the next sample; mute in [0,1], 0 on flags, 1 far away, function of the flags only")
 def h_sat(H):
-    for per_channel in (False, True):
-        S = H.session(f"saturation.{'vec' if per_channel else 'scalar'}")
+    for per_channel, dt in ((False, "float32"), (True, "float32")):
+        S = H.session(f"saturation.{'vec' if per_channel else 'scalar'}" + ("" if dt == "float32" else "." + dt))
 
-        def body(it, per_channel=per_channel):
+        def body(it, per_channel=per_channel, dt=dt):
             nc, ns, M = z3.Ints("nc ns M")
             p, v, fs = z3.Reals("proportion v_per_sec fs")
             it.ctx.assume(z3.And(nc >= 1, ns >= 2, M >= 1, p >= 0, p < 1, fs > 0, v > 0))
-            data = A.fresh_array("data", "float32", (nc, ns))
+            data = A.fresh_array("data", dt, (nc, ns))
             if per_channel:
                 mv = A.fresh_array("maxv", "float32", (nc,))
                 mvf = lambda c: mv.read((c,))    # noqa
@@ -46,7 +46,7 @@ def h_sat(H):
                 mvf = lambda c: mvs    # noqa
             before = data.snapshot()
             sat, mute = run_function(it, V.saturation, [data, mv], {"v_per_sec": SV(v), "fs": SV(fs), "proportion": SV(p), "mute_window_samples": SV(M)})
-            tag = "vec" if per_channel else "scalar"
+            tag = ("vec" if per_channel else "scalar") + ("" if dt == "float32" else "." + dt)
             # the channel fraction of a boolean mask is either its mean over the channel axis or its count of set channels (fraction = count / nc)
             red = [r for r in it.ctx.reduce_log if r["name"] in ("mean", "count_nonzero")]
             if len(red) != 2:
@@ -83,6 +83,11 @@ def h_sat(H):
                                                                     (cv[0]["w"].window[1] == M) if okc else z3.BoolVal(False)), "post",
                           "the mute is 1 - convolution of the flags with the cosine window of the requested width, clipped at 0: no other data enters")
             H.input(M=M, nc=nc, ns=ns)
+            cout = cv[0].get("out")
+            if cout is not None:
+                it.ctx.oblige(f"mute.is_the_taper_of_the_flags.{tag}", z3.And(z3.BoolVal(mute.dtype.kind == "f"), A.forall([t], lambda: z3.Implies(z3.And(t >= 0, t < ns), mute.read((t,)) == z3.If(sat.read((t,)), z3.RealVal(0),
+                              z3.If(1 - cout(t) >= 0, 1 - cout(t), z3.RealVal(0)))))), "post",
+                              "the gain is max(0, 1 - flags * window), and 0 on the flags, as a real number whatever the type of the traces (integer traces do not turn the ramp into a box)", assume=False)
             it.ctx.oblige(f"mute.zero_on_flag.{tag}", A.forall([t], lambda: z3.Implies(z3.And(t >= 0, t < ns, sat.read((t,))), mute.read((t,)) == 0)), "post",
                           "mute gain is 0 on every flagged sample")
             k = z3.Int("k")
@@ -124,12 +129,18 @@ def native_cases(rng, n, widths=(7, 5, 1, 9)):
         far = np.array([np.all(np.abs(flagged - t) > M // 2) for t in range(ns)]) if flagged.size else np.ones(ns, bool)
         ok = ok and np.all(mute[far] == 1)
         # depends on nothing but the flags: same flags from different data give the same mute
-        d2 = np.zeros((1, ns), np.float32)
+        d2 = np.zeros((1, ns), np.float64)
         d2[0, want] = 10
         s2, m2 = V.saturation(d2, 1.0, v_per_sec=1e9, fs=fs, proportion=0.5, mute_window_samples=M)
-        ok = ok and np.array_equal(s2, want) and np.allclose(m2, mute)
+        ok = ok and np.array_equal(s2, want) and m2.dtype == mute.dtype and np.array_equal(m2, mute)      # exactly: other traces (other values, other precision) with the same flags
         if not ok:
             bad.append((nc, ns, p, percha, M, vps))
+        # the same (integer-valued) traces handed over as int16 / float32 / float64 counts: same flags, same gain
+        if it % 4 == 0:
+            cnt = np.clip(np.round(data / np.float32(0.6) * 500), -512, 511)
+            outs = [V.saturation(cnt.astype(dtp), 512, v_per_sec=vps * 500 / 0.6, fs=fs, proportion=p, mute_window_samples=M) for dtp in (np.float64, np.float32, np.int16)]
+            if not all(np.array_equal(o[0], outs[0][0]) and np.allclose(o[1], outs[0][1], atol=1e-6) for o in outs[1:]):
+                bad.append((nc, ns, p, "gain or flags depend on the type of the traces (float64 / float32 / int16 counts)", M))
     return bad
 
 
